@@ -528,7 +528,8 @@ def eq(ex, a, b):
                 for k_ in ca.items:
                     acc = and_(ex, acc, eq(ex, ca.items[k_], cb.items[k_]))
                 return acc
-            raise OutOfSubset('== of symbolic dict cells')
+            ka = ca.sym.kind if ca.sym is not None else cb.sym.kind
+            return Sym(K.Bool, map_eq(ex, dict_to_map(ex, ca, ka), dict_to_map(ex, cb, ka)))
         return False
     if isinstance(a, Ref) or isinstance(b, Ref):
         r, o = (a, b) if isinstance(a, Ref) else (b, a)
@@ -584,6 +585,8 @@ def _eq_sym_const(ex, s, c):
         cell = ex.run.cell(c)
         if isinstance(cell, HList) and isinstance(k, K.Seq):
             return Sym(K.Bool, s.t == lift(ex, c, k))
+        if isinstance(cell, HDict) and isinstance(k, K.Map):
+            return Sym(K.Bool, map_eq(ex, s, dict_to_map(ex, cell, k)))
         if isinstance(cell, HObj) and not isinstance(cell.cls, tuple) and cell.cls.is_subclass_of(('ext', 'builtins.str')):
             return eq(ex, s, cell.payload)
         if k == K.Dyn:
@@ -1082,7 +1085,8 @@ class AbstractFn:
 
     def call(self, ex, args, kwargs):
         if kwargs:
-            raise OutOfSubset('kwargs to abstract fn')
+            # keyword arguments are appended (a symbolic ** mapping as one packed argument)
+            args = list(args) + [kwargs[k_] for k_ in kwargs]
         run = ex.run
         if self.may_raise:
             c = run.choose(2, tag=f'{self.name}', labels=['ret', 'raise'])
@@ -1094,7 +1098,10 @@ class AbstractFn:
             ret = self.app(ex, args)
         else:
             ret = run.fresh(self.ret_kind, f'ret_{self.name}')
-        run.trace.append(Event(self.name, None, args, 'ret', ret))
+            n = sum(1 for e in run.trace if e.name == self.name)
+            run.inputs[f'{self.name}#{n}'] = (self.ret_kind, ret.t)
+        if not getattr(run, 'in_merge', False) or not self.functional:
+            run.trace.append(Event(self.name, None, args, 'ret', ret))
         return ret
 
 
